@@ -71,6 +71,8 @@ impl Sched {
 enum Op {
     Lookup(&'static str),
     Forget(u64),
+    /// give back the reference this thread obtained by its last lookup
+    ForgetOwn,
     ReaddirPlus,
 }
 
@@ -104,6 +106,12 @@ fn run_program(fs: &Fs, dir: u64, file: u64, prog: &[Op]) -> ThreadResult {
             Op::Forget(n) => {
                 fs.forget(&ctx, file, *n);
                 out.forgot += n;
+            }
+            Op::ForgetOwn => {
+                if let Some(n) = out.lookups.last().copied() {
+                    fs.forget(&ctx, n, 1);
+                    out.forgot += 1;
+                }
             }
             Op::ReaddirPlus => {
                 if let Ok((Some(h), _)) = fs.opendir(&ctx, dir, 0) {
@@ -159,11 +167,16 @@ fn run_schedule(dir: &Path, ifh: bool, initial_refs: u64, progs: &[Vec<Op>], cho
     let ctx = Context::default();
     // the references the client already holds
     let mut file = 0;
-    for _ in 0..initial_refs.max(1) {
-        file = pfs.lookup(&ctx, d, &CString::new("f").unwrap()).unwrap().inode;
-    }
-    if initial_refs == 0 {
-        pfs.forget(&ctx, file, 1);
+    // NEVER_SEEN: the server has not met the file at all (no number is on record for it); otherwise the client
+    // holds `initial_refs` references, or has held one and given it back
+    let never_seen = initial_refs == 0 && NEVER_SEEN.load(Ordering::Relaxed) != 0;
+    if !never_seen {
+        for _ in 0..initial_refs.max(1) {
+            file = pfs.lookup(&ctx, d, &CString::new("f").unwrap()).unwrap().inode;
+        }
+        if initial_refs == 0 {
+            pfs.forget(&ctx, file, 1);
+        }
     }
     let sched = Sched::new();
     let s2 = sched.clone();
@@ -227,6 +240,10 @@ fn run_schedule(dir: &Path, ifh: bool, initial_refs: u64, progs: &[Vec<Op>], cho
     let results: Vec<ThreadResult> = handles.into_iter().map(|h| h.join().unwrap_or_default()).collect();
     fuse_backend_rs::verif::set_yield_callback(None);
     let trace = sched.st.lock().unwrap().trace.clone();
+    if file == 0 {
+        // never-seen file: the number is whatever the first lookup was given; all others must agree with it
+        file = results.iter().flat_map(|r| r.lookups.iter().copied()).next().unwrap_or(0);
+    }
     Outcome { trace, results, final_count: pfs.verif_refcount(file), file, options, deadlock }
 }
 
@@ -276,6 +293,9 @@ fn programs(r: &mut Rng, nthreads: usize, initial_refs: u64) -> Vec<Vec<Op>> {
                 if r.chance(1, 3) {
                     p.push(Op::Lookup(*r.pick(&["f", "g"])));
                 }
+                if r.chance(1, 3) {
+                    p.push(Op::ForgetOwn);
+                }
             }
             1 => {
                 if forget_budget > 0 {
@@ -299,6 +319,7 @@ fn programs(r: &mut Rng, nthreads: usize, initial_refs: u64) -> Vec<Vec<Op>> {
 }
 
 static STRESS_DELAY: AtomicU64 = AtomicU64::new(1);
+static NEVER_SEEN: AtomicU64 = AtomicU64::new(0);
 
 pub fn run(args: &Args, rep: &mut Report) {
     let base = args.get("scratch").unwrap_or("/verif/scratch/adhoc").to_string();
@@ -314,9 +335,10 @@ pub fn run(args: &Args, rep: &mut Report) {
         rep.begin(idx, "schedule");
         let ifh = r.chance(1, 2);
         let initial_refs = r.below(3);
+        NEVER_SEEN.store((initial_refs == 0 && r.chance(1, 2)) as u64, Ordering::Relaxed);
         let nthreads = if idx % 3 == 2 { 3 } else { 2 };
         let progs = programs(&mut r, nthreads, initial_refs);
-        let desc = format!("threads={} initial_refs={} inode_file_handles={} programs={:?}", nthreads, initial_refs, ifh, progs);
+        let desc = format!("threads={} initial_refs={} never_seen={} inode_file_handles={} programs={:?}", nthreads, initial_refs, NEVER_SEEN.load(Ordering::Relaxed), ifh, progs);
         let mut report = |rep: &mut Report, o: &Outcome, choices: &[usize]| -> bool {
             rep.eval();
             let key = trace_key(&o.trace);
